@@ -11,6 +11,8 @@ uint32_t time_now(void) { return 0; }
 #define MAXN 400
 typedef struct { bintree_node_t node; int id; int islist; } tn_t;
 static tn_t *nodes[MAXN + 1];
+static char *blocks[MAXN + 1];   /* the malloc blocks; nodes sit at offset 0 or 2 inside them */
+static int misalign;              /* alternate runs place nodes at addresses that are only 2-byte aligned (2 mod 4) */
 static int freed[MAXN + 1];
 static int n, L[MAXN + 1], R[MAXN + 1], ISL[MAXN + 1];
 static const char *curmode;
@@ -24,13 +26,14 @@ static int idx(bintree_node_t *p)
 }
 static void build(void)
 {
-	for (int i = 1; i <= n; i++) { nodes[i] = malloc(sizeof(tn_t)); nodes[i]->id = i; nodes[i]->islist = ISL[i]; freed[i] = 0; }
+	misalign = !misalign;
+	for (int i = 1; i <= n; i++) { blocks[i] = malloc(sizeof(tn_t) + 2); nodes[i] = (tn_t *)(blocks[i] + (misalign ? 2 : 0)); nodes[i]->id = i; nodes[i]->islist = ISL[i]; freed[i] = 0; }
 	for (int i = 1; i <= n; i++) {
 		nodes[i]->node.left = L[i] ? &nodes[L[i]]->node : NULL;
 		nodes[i]->node.right = R[i] ? &nodes[R[i]]->node : NULL;
 	}
 }
-static void teardown(void) { for (int i = 1; i <= n; i++) if (!freed[i]) free(nodes[i]); }
+static void teardown(void) { for (int i = 1; i <= n; i++) if (!freed[i]) free(blocks[i]); }
 static void arr(const char *k, int *a) { printf("\"%s\":[", k); for (int i = 1; i <= n; i++) printf("%s%d", i > 1 ? "," : "", a[i]); printf("]"); }
 static void emit_reset(const char *mode)
 {
@@ -54,7 +57,7 @@ static void dealloc(bintree_node_t *p)
 {
 	int i = idx(p);
 	emit_step(i);                      /* state as bintree_free sees it when it hands the node over */
-	if (i >= 1 && i <= n && !freed[i]) { freed[i] = 1; memset(nodes[i], 0xDD, sizeof(tn_t)); free(nodes[i]); }
+	if (i >= 1 && i <= n && !freed[i]) { freed[i] = 1; memset(nodes[i], 0xDD, sizeof(tn_t)); free(blocks[i]); }
 }
 static void run_mode(const char *mode)
 {
@@ -83,7 +86,7 @@ static void run_mode(const char *mode)
 }
 /* bintree_free_left / bintree_free_right: the subtree goes, the parent's link is cleared, the rest is untouched */
 static int flog[MAXN + 1], nflog;
-static void dealloc2(bintree_node_t *p) { int i = idx(p); flog[nflog++] = i; if (i >= 1 && i <= n && !freed[i]) { freed[i] = 1; memset(nodes[i], 0xDD, sizeof(tn_t)); free(nodes[i]); } }
+static void dealloc2(bintree_node_t *p) { int i = idx(p); flog[nflog++] = i; if (i >= 1 && i <= n && !freed[i]) { freed[i] = 1; memset(nodes[i], 0xDD, sizeof(tn_t)); free(blocks[i]); } }
 static void run_freesub(int right)
 {
 	if (!n) return;
@@ -120,7 +123,7 @@ static void rec(int *sizes, int nsz, int i, void (*cb)(void));
 static void do_all_modes(void)
 {
 	static const char *modes[] = { "in", "pre", "post", "free" };
-	for (int m = 0; m < 4; m++) run_mode(modes[m]);
+	for (int m = 0; m < 4; m++) { run_mode(modes[m]); if (n <= 6) run_mode(modes[m]); }   /* small shapes: aligned and 2-mod-4 placement */
 	run_freesub(0); run_freesub(1);
 }
 /* catalan enumeration: assign left-subtree sizes recursively */
